@@ -190,6 +190,122 @@ def h_voxel(kind):
     return h
 
 
+# ------------------------------------------------------------------ erosion amount chosen by pruneContainment
+class _Eroded(Exception):
+    def __init__(self, amount):
+        self.amount = amount
+
+
+def h_containment_erosion(ctx):
+    """The container is eroded by at most the radius of a ball that is inside the object whatever its pose:
+    the planar inradius only for a 2D base region AND pitch = roll = 0, the full inradius otherwise."""
+    import scenic.core.pruning as P
+    import scenic.core.regions as R
+    from scenic.core.distributions import Range
+
+    M.bind(ctx)
+    r3 = ctx.real("object.inradius", 0, None)
+    r2 = ctx.real("object.planarInradius", 0, None)
+    ctx.assume(E.sym_and(r3 > 0, r2 >= r3))
+    planar_base = ctx.flag("base_is_polygonal")
+    angle_kinds = ["zero", "constant-nonzero", "random-around-zero"]
+    pk, rk = ctx.choice("pitch", angle_kinds), ctx.choice("roll", angle_kinds)
+
+    def angle(kind):
+        return {"zero": 0, "constant-nonzero": 0.3, "random-around-zero": Range(-0.1, 0.1)}[kind]
+
+    base = object.__new__(R.PolygonalRegion if planar_base else R.MeshVolumeRegion)
+
+    class Container:
+        def buffer(self, amount):
+            raise _Eroded(-amount)
+
+    pos = object.__new__(R.PointInRegionDistribution)
+    pos.__dict__.update(region=base, _conditioned=pos)
+
+    class Obj:
+        position = pos
+        pitch, roll = angle(pk), angle(rk)
+        inradius = r3
+        planarInradius = r2
+
+    class Scn:
+        objects = [Obj()]
+
+        def containerOfObject(self, o):
+            return Container()
+
+    try:
+        P.pruneContainment(Scn(), 0)
+        eroded = None
+    except _Eroded as e:
+        eroded = e.amount
+    flat = planar_base and pk == "zero" and rk == "zero"
+    allowed = r2 if flat else r3
+    if eroded is None:
+        ctx.check("erosion-skipped-only-when-unproductive", True)
+    else:
+        ctx.check("container-eroded-by-at-most-the-guaranteed-radius-of-the-object", eroded <= allowed,
+                  base_polygonal=planar_base, pitch=pk, roll=rk)
+        ctx.check("erosion-uses-the-full-available-radius", eroded == allowed, base_polygonal=planar_base, pitch=pk, roll=rk)
+
+
+def h_buffer_box(ctx):
+    """_bufferOverapproximate, pitch >= 1 fast path: the returned box covers the bounding box grown by minBuffer on every side."""
+    import scenic.core.regions as R
+
+    M.bind(ctx)
+    b = ctx.real("minBuffer", 0, None)
+    lo = [ctx.real(f"min{d}") for d in "xyz"]
+    hi = [ctx.real(f"max{d}") for d in "xyz"]
+    for a, c in zip(lo, hi):
+        ctx.assume(a < c)
+
+    class Arr(list):
+        def __add__(self, k):
+            return Arr([x + (k[i] if isinstance(k, (list, tuple)) else k) for i, x in enumerate(self)])
+
+        __radd__ = __add__
+
+    class BB:
+        centroid = Arr([(a + c) / 2 for a, c in zip(lo, hi)])
+
+    class Mesh:
+        bounds = [Arr(lo), Arr(hi)]
+        extents = Arr([c - a for a, c in zip(lo, hi)])
+        bounding_box = BB()
+
+    class NP:
+        @staticmethod
+        def mean(bounds, axis=0):
+            return Arr([(bounds[0][i] + bounds[1][i]) / 2 for i in range(3)])
+
+        @staticmethod
+        def diff(bounds, axis=0):
+            return [Arr([bounds[1][i] - bounds[0][i] for i in range(3)])]
+
+    got = {}
+
+    def Box(position=None, dimensions=None, **kw):
+        got.update(position=list(position), dimensions=list(dimensions))
+        return "box"
+
+    reg = object.__new__(R.MeshVolumeRegion)
+    reg.__dict__["mesh"] = Mesh()
+    reg.__dict__["_cached_mesh"] = Mesh()
+    saved = (R.numpy, R.BoxRegion, R.toVector)
+    R.numpy, R.BoxRegion, R.toVector = NP, Box, (lambda v: v)
+    try:
+        R.MeshVolumeRegion._bufferOverapproximate.__wrapped__(reg, b, 1)
+    finally:
+        R.numpy, R.BoxRegion, R.toVector = saved
+    conds = []
+    for i in range(3):
+        c, d = got["position"][i], got["dimensions"][i]
+        conds.append(E.sym_and(c - d / 2 <= lo[i] - b, c + d / 2 >= hi[i] + b))
+    ctx.check("box-covers-the-bounding-box-grown-by-minBuffer-on-every-side", E.sym_and(*conds))
+
+
 class NonTermination(Exception):
     pass
 
@@ -423,6 +539,10 @@ def obligations(tier, seed):
     obs.append(Obligation("voxel-dilation-amount", h_voxel("buffer"), "_bufferOverapproximate dilates at least the requested amount",
                           {"amount, pitch, extents": "any positive reals"}, [R.MeshVolumeRegion._bufferOverapproximate],
                           ["one dilation pass moves the boundary outwards by at least one voxel edge"], opts=o))
+    obs.append(Obligation("containment-erosion-amount", h_containment_erosion, "pruneContainment erodes by the planar inradius only for flat objects in 2D regions",
+                          {"pitch/roll": "zero / constant non-zero / random", "radii": "symbolic, planar >= full"}, [P.pruneContainment], [], opts=o))
+    obs.append(Obligation("dilation-box-fast-path", h_buffer_box, "_bufferOverapproximate with pitch >= 1 grows the bounding box by minBuffer on every side",
+                          {"bounds": "symbolic", "minBuffer": ">= 0"}, [R.MeshVolumeRegion._bufferOverapproximate], [], opts=o))
     obs.append(Obligation("containment-retry-loop", h_retry_loop("containment"), "pruneContainment retry loop terminates",
                           {"conversion threshold": "symbolic in [0,1]"}, [P.pruneContainment],
                           ["voxel->mesh conversion fails below an arbitrary pitch threshold <= 1"], opts=o))
